@@ -30,10 +30,14 @@ package main
 //     whenever a server is built: a mismatch is a tie/server-start failure).
 //
 // Model comparison (srvsession_model.go): every session is also replayed in the executable
-// Lean model of the handle table (driver op `c11.run`, configuration bits from `cur.cfg c11rs` /
-// `cur.cfg c11os`, i.e. regenerated from the source): status class of every handle request,
-// handle string of every OPEN / OPENDIR, per object closed / TransferError / context / touched
-// after Serve, and the table before the end and after it.  Key c11/c11.run/<rs|os>.
+// Lean model of the handle table (driver op `c11.run`, extended configuration token `<8 bits>:<kinds>` from
+// `c11.cur rs` / `c11.cur os`, i.e. regenerated from the source): status class of every handle request
+// (ok / ebadf / wrongkind — READ, WRITE and READDIR are kind-checked uses R: W: D:), handle string of every
+// OPEN / OPENDIR (handles=), kind of every object (kinds=, from the object the handler returned resp. how
+// the file was opened), per object closed / TransferError (listers included) / context / touched after
+// Serve, and the table before the end and after Serve on both servers.  Key c11/c11.run/<rs|os>.
+// Requests that do not fit the kind of their live handle are generated deliberately (worn-handle
+// sessions: right after the open, single and pipelined; PRNG sessions with WrongKind).
 // The option dimensions stay comparable: fields an object cannot show (closed count without Close,
 // TransferError count without the method) are left out of the comparison, WRITE / FSETSTAT refused by a
 // ReadOnly() server are no table action (like path requests); a configuration the model cannot express
@@ -224,10 +228,10 @@ func checkC11(c *lib.Ctx) {
 	}
 	var progs [][]ssStep
 	for i := 0; i < nSmall; i++ {
-		progs = append(progs, ssGen(c.Rand, ssGenOpts{N: 18 + c.Rand.Intn(10), Stale: true, CloseAll: i%2 == 0}))
+		progs = append(progs, ssGen(c.Rand, ssGenOpts{N: 18 + c.Rand.Intn(10), Stale: true, CloseAll: i%2 == 0, WrongKind: i%3 != 0}))
 	}
 	for i := 0; i < nMany; i++ {
-		progs = append(progs, ssGen(c.Rand, ssGenOpts{N: 24, Stale: true, Many: 32, CloseAll: i%2 == 0}))
+		progs = append(progs, ssGen(c.Rand, ssGenOpts{N: 24, Stale: true, Many: 32, CloseAll: i%2 == 0, WrongKind: i%2 == 1}))
 	}
 	for i := 0; i < nChurn; i++ {
 		progs = append(progs, ssGenChurn(c.Rand, i%2 == 0))
@@ -327,5 +331,5 @@ func checkC11(c *lib.Ctx) {
 	if mc == nil {
 		r.Skip("model comparison (driver op c11.run): no --model given")
 	}
-	r.Skip("model comparison, not expressible with the driver op c11.run: INIT and path requests (dropped from the trace: the model has no action for them); requests that do not fit the kind of their live handle (one `use` action: found => called; such sessions are counted in model/skip/…); TransferError of a ListerAt (Request.transferError only tells readers and writers: the model's terr of a directory object is not compared); a context cancelled more than once; the table of the os-backed server after Serve (server.go's sweep closes the files but does not delete the map entries, the model forgets them: unobservable, not compared); for the request server the table CONTENTS (only VerifOpenRequests = its size is exported; the os-backed table is read exactly through VerifSwapFile probes); WRITE / FSETSTAT refused by a ReadOnly() server (refused before the table is consulted: dropped from the trace like path requests, sessions counted in model/compared-without/readonly-refused-handle-requests); the closed / TransferError counts of handler objects that lack the method (nothing to observe: those fields are left out, sessions counted in model/compared-without/closed-count-of-objects-without-Close)")
+	r.Skip("model comparison, not expressible with the driver op c11.run: INIT and path requests (dropped from the trace: the model has no action for them); a context cancelled more than once (observable only as cancelled / not); the table CONTENTS of the request server (only VerifOpenRequests = its size is exported; the os-backed table is read exactly through VerifSwapFile probes, before the end and after Serve); notification of a placeholder (kind letter p: a failed open's request is out of the table before any sweep, the letter changes nothing in the model either); TransferError / context of os-backed files (they have neither); a zero-length WRITE on an os-backed handle of another kind (WriteAt of no bytes never reaches the descriptor: sent to the model as a use that fits every handle); WRITE / FSETSTAT refused by a ReadOnly() server (refused before the table is consulted: dropped from the trace like path requests, sessions counted in model/compared-without/readonly-refused-handle-requests); the closed / TransferError counts of handler objects that lack the method (nothing to observe: those fields are left out, sessions counted in model/compared-without/closed-count-of-objects-without-Close)")
 }
